@@ -72,7 +72,7 @@ def run(ctx, replay=None):
         if files:
             jobs.append(("corpus", ["run"] + files, None))
         parts = 4 if quick else 16
-        n = 400 if quick else 12000
+        n = 1200 if quick else 12000
         for i in range(parts):
             jobs.append(("gen%d" % i, ["gen", n // parts], ctx.seed * 1000 + i))
     total, nontrivial, hashes, samples = 0, 0, set(), []
